@@ -21,6 +21,7 @@ import (
 	"os"
 	"path/filepath"
 	"reflect"
+	"runtime/pprof"
 	"sort"
 	"strings"
 	"time"
@@ -321,7 +322,9 @@ func (env *c14Env) run(sp *c14Spec, cfg c14Cfg, sink *c14Sink, dst io.Writer) *c
 	}
 	done := make(chan res, 1)
 	go func() {
+		td := time.Now()
 		calls, p := env.drive(sp, cfg, dst, func(i int) { sink.call = i })
+		dbgDrive += time.Since(td)
 		done <- res{calls, p}
 	}()
 	t := time.NewTimer(env.timeout)
@@ -568,6 +571,9 @@ func (env *c14Env) layout(sp *c14Spec, cfg c14Cfg) (*c14Layout, error) {
 		}
 	}
 	if env.c.HasOracle() {
+		if os.Getenv("C14_DEBUG") != "" {
+			fmt.Fprintf(os.Stderr, "c14.layout %d %s\n", lay.id, sb.String())
+		}
 		ans := env.c.Ask(fmt.Sprintf("c14.layout %d %s", lay.id, sb.String()))
 		want := fmt.Sprintf("ok %d %d", len(lay.sites), len(ref))
 		if ans != want {
@@ -655,6 +661,8 @@ func (env *c14Env) check(sp *c14Spec, cfg c14Cfg, lay *c14Layout, f c14Fault, o 
 	return true
 }
 
+var dbgRun, dbgCheck, dbgDrive time.Duration
+
 func (env *c14Env) offsets(lay *c14Layout, stride int, all bool) []int {
 	n := len(lay.ref)
 	set := map[int]bool{}
@@ -691,6 +699,12 @@ func (env *c14Env) offsets(lay *c14Layout, stride int, all bool) []int {
 // sweep runs every fault of ks under one configuration and compares with the model.
 func (env *c14Env) sweep(sp *c14Spec, cfg c14Cfg, lay *c14Layout, kind string, ks []int, bucket string) {
 	c := env.c
+	if os.Getenv("C14_DEBUG") != "" {
+		t0 := time.Now()
+		defer func() {
+			fmt.Fprintf(os.Stderr, "sweep %s %+v %s: %d faults, %d bytes, %.2fs run=%v check=%v drive=%v\n", sp.Name, cfg, kind, len(ks), len(lay.ref), time.Since(t0).Seconds(), dbgRun, dbgCheck, dbgDrive)
+		}()
+	}
 	var answers []string
 	if c.HasOracle() && len(ks) > 0 {
 		var sb strings.Builder
@@ -710,12 +724,16 @@ func (env *c14Env) sweep(sp *c14Spec, cfg c14Cfg, lay *c14Layout, kind string, k
 	for i, k := range ks {
 		f := c14Fault{Kind: kind, K: k}
 		sink := c14NewSink(f)
+		tr := time.Now()
 		o := env.run(sp, cfg, sink, sink)
+		dbgRun += time.Since(tr)
 		mv := ""
 		if answers != nil {
 			mv = answers[i]
 		}
+		tr = time.Now()
 		env.check(sp, cfg, lay, f, o, mv)
+		dbgCheck += time.Since(tr)
 		c.Case(bucket, fmt.Sprintf("%s|%v|%s|%d", sp.Name, cfg, kind, k), true)
 	}
 }
@@ -768,6 +786,11 @@ func c14Cfgs(sp *c14Spec, quick bool) []c14Cfg {
 }
 
 func runC14(c *core.Ctx) {
+	if pf := os.Getenv("C14_PROFILE"); pf != "" {
+		f, _ := os.Create(pf)
+		pprof.StartCPUProfile(f)
+		time.AfterFunc(10*time.Second, func() { pprof.StopCPUProfile(); f.Close(); os.Exit(3) })
+	}
 	env := &c14Env{c: c, timeout: 20 * time.Second}
 	env.workdir = filepath.Join(c.OutDir, "pools")
 	_ = os.MkdirAll(env.workdir, 0o755)
